@@ -3,7 +3,7 @@ import itertools
 import math
 
 from ..core.choice_rng import ChoiceRng
-from ..core.explorer import Chooser, explore
+from ..core.explorer import NOT_REPRODUCIBLE, Chooser, explore
 from ..core.runner import Partial
 
 LEVEL = "exploration"
@@ -305,7 +305,7 @@ def dino_seeded(cfg, p):
                                 f"{cfg} seed {seed}: {info}")
                 else:
                     p.observe(("dino_seq", repr(sorted(cfg.items())), seq, info))
-            for ch, res in explore(lambda c: dino_sequence(cfg, ChoiceRng(c, frac=(0.0, 0.5, 1 - 1e-9), int_full=6), seq),
+            for ch, res in explore(lambda c: dino_sequence(cfg, ChoiceRng(c, frac=(0.0, 0.5, 1 - 1e-9), int_full=6), seq), diverged=lambda msg: (NOT_REPRODUCIBLE, msg),
                                    max_dev=1, cap=60):
                 if ch is None:
                     break
@@ -335,7 +335,7 @@ def task(args):
                 continue
             body = ijepa_body(cfg, 2)
         n = 0
-        for ch, res in explore(body, max_dev=max_dev, cap=cap):
+        for ch, res in explore(body, max_dev=max_dev, cap=cap, diverged=lambda msg: (NOT_REPRODUCIBLE, msg)):
             if ch is None:
                 p.count("configs_capped")
                 break
